@@ -495,7 +495,7 @@ func newPrinter() (r *pp)
   ensures inv(r.buf)
 
 func (p *pp) free()
-  requires [C02,C05,C06,C09,C12] p.override == 0 && p.buf.gctx == 0
+  requires [C02,C05,C06,C08,C09,C12] p.override == 0 && p.buf.gctx == 0
   -- a printer that goes back to the pool holds no storage: what it wrote was handed to the caller (Take*) or belongs to
   -- the enclosing printer (nested Print/Printf). A pooled printer that still referred to such storage would write over it
   -- in a later call (output already written or already returned would be lost)
